@@ -83,7 +83,10 @@ Definition ostep (k : ekind) (vs : ovars) (o : oop) : ovars * out * list ev :=
        [EConstruct sa; EUse sa; EConstruct (sv i); EDestroy sa])
     else oskip vs
   | ONewConv i v =>
-    if dead_at vs i then (wr vs i (Live (mk_opt true (fresh v))), RUnit, [EConstruct (sv i)]) else oskip vs
+    if dead_at vs i then
+      if throws v then (vs, RThrow, [])          (* T's constructor throws: no optional comes into being *)
+      else (wr vs i (Live (mk_opt true (fresh v))), RUnit, [EConstruct (sv i)])
+    else oskip vs
   | ONewCopy i j =>
     match dead_at vs i, live_at vs j with
     | true, Some s =>
@@ -127,8 +130,11 @@ Definition ostep (k : ekind) (vs : ovars) (o : oop) : ovars * out * list ev :=
     end
   | OEmplace i v =>
     match live_at vs i with
-    | Some d => (wr vs i (Live (mk_opt true (fresh v))), RUnit,
-                 (if eng d then [EDestroy (sv i)] else []) ++ [EConstruct (sv i)])
+    | Some d =>
+      if throws v then   (* _reset() has cleared _non_null before the placement new throws *)
+        (wr vs i (Live (mk_opt false (ov d))), RThrow, if eng d then [EDestroy (sv i)] else [])
+      else (wr vs i (Live (mk_opt true (fresh v))), RUnit,
+            (if eng d then [EDestroy (sv i)] else []) ++ [EConstruct (sv i)])
     | None => oskip vs
     end
   | OGet i | OCGet i | OArrow i | OValue i => opt_access vs i
@@ -146,8 +152,10 @@ Definition rvars := list (cell (option N)).
 Definition rostep (vs : rvars) (o : oop) : rvars * out :=
   match o with
   | ONew i | ONewNull i => if dead_at vs i then (wr vs i (Live None), RUnit) else (vs, RSkip)
-  | ONewCVal i v | ONewVal i v | ONewConv i v =>
+  | ONewCVal i v | ONewVal i v =>
     if dead_at vs i then (wr vs i (Live (Some v)), RUnit) else (vs, RSkip)
+  | ONewConv i v =>
+    if dead_at vs i then if throws v then (vs, RThrow) else (wr vs i (Live (Some v)), RUnit) else (vs, RSkip)
   | ONewCopy i j | ONewMove i j =>
     match dead_at vs i, live_at vs j with
     | true, Some s => (wr vs i (Live s), RUnit)
@@ -161,8 +169,12 @@ Definition rostep (vs : rvars) (o : oop) : rvars * out :=
     end
   | OCAssign i s | OCMAssign i s =>
     match live_at vs i with Some _ => (wr vs i (Live s), RUnit) | None => (vs, RSkip) end
-  | OAssignVal i v | OEmplace i v =>
+  | OAssignVal i v =>
     match live_at vs i with Some _ => (wr vs i (Live (Some v)), RUnit) | None => (vs, RSkip) end
+  | OEmplace i v =>      (* std::optional::emplace: "if the constructor throws, *this does not contain a value" *)
+    match live_at vs i with
+    | Some _ => if throws v then (wr vs i (Live None), RThrow) else (wr vs i (Live (Some v)), RUnit)
+    | None => (vs, RSkip) end
   | OReset i => match live_at vs i with Some _ => (wr vs i (Live None), RUnit) | None => (vs, RSkip) end
   | OGet i | OCGet i | OArrow i | OValue i =>
     match live_at vs i with
